@@ -68,6 +68,10 @@ pub fn run(run: &mut Run) -> PResult {
     run.rule = "all 52 x 51 ordered pairs of distinct deck cards through chen_formula and the helpers (get_gap, high_card, is_connector, is_pocket_pair, is_suited, is_suited_connector), against an integer half-point model of Chen's formula; symmetry under slot swap and invariance under 1..3 suit shifts; all 52 cards for get_chen_points. Non-trivial = non-pair hands with gap 1, 2 or 3 and suited gapped hands below the queen (arms no test executes); distinct = distinct ordered pairs".into();
     run.assume("Chen's published formula; the model is integral (half-points), round half up also for negative totals");
     super::regress::replay_dir(run, "C17", check_case)?;
+    {
+        let hands: Vec<[u32; 2]> = card::DECK.iter().flat_map(|a| card::DECK.iter().filter(move |b| *b != a).map(move |b| [*a, *b])).collect();
+        disturbance_pass(run, &hands, &|h| pair_clause(h[0], h[1]), &|h| ("C17.chen".into(), hand_json(h), card::render_hand(h)))?;
+    }
     for w in card::DECK {
         if let Err(m) = points_clause(w) {
             run.generator("per-card points", "exhaustive", Some(52), 52, 52, "");
@@ -144,6 +148,9 @@ pub fn run(run: &mut Run) -> PResult {
 }
 
 pub fn check_case(clause: &str, case: &Value) -> Result<(), String> {
+    if clause.ends_with(".after_disturbance") {
+        return super::common::replay_after_disturbance(case, check_case);
+    }
     match clause {
         "C17.points" => points_clause(engine::parse_word(&case["word"])?),
         "C17.sequence" => {
